@@ -21,7 +21,10 @@ sys.path.insert(0, os.path.dirname(os.path.abspath(__file__)))
 from mir2smt import *
 import float_check as FC
 
-def dump_mir(repo, scratch):
+def dump_mir(repo, scratch, native=False):
+    if native:
+        import simd_check as SC
+        return SC.dump_mir(repo, scratch)        # with the x86 target features: arch::x86_64::simd_str2int is the fraction reader
     return FC.dump_mir(repo, scratch)
 
 class Shape:
@@ -291,10 +294,11 @@ def main():
     ap.add_argument("--timeout-ms", type=int, default=20000)
     ap.add_argument("--shapes", default="quick")
     ap.add_argument("--limit", type=int, default=0)
+    ap.add_argument("--native", action="store_true", help="MIR with the x86 target features of /repo's target-cpu=native build")
     a = ap.parse_args()
     t0 = time.time()
     os.makedirs(a.scratch, exist_ok=True)
-    mir = dump_mir(a.repo, a.scratch)
+    mir = dump_mir(a.repo, a.scratch, a.native)
     mir_path = os.path.join(a.scratch, "sonic-number.mir")
     open(mir_path, "w").write(mir)
     shapes = shapes_for(a.shapes)
